@@ -256,3 +256,33 @@ func init() {
 			r.Floor("R-PATHFRESH", 15)
 		}})
 }
+
+func init() {
+	register(&PropSpec{ID: "C02",
+		Explain: "Decides that the native text format carries hunks losslessly at the level of line kinds: (R-AUTOMATON) the reader's transition / flush / field-effect table is extracted from readDiff's SSA by evaluating one loop iteration under every (state constant, header character) pair with assumption-pruned reachability (the state is the int phi of constants at the line loop, the transition validator closure is checked to be a membership test); the writer's line grammar (field order, line-leading literal per field for void and value elements, metadata and path lines) is extracted from DiffElement.Render the same way; then every sequence of up to three hunks over all hunk shapes C02 names (context absent/boundary/value on each side, 0..2 removes, 0..2 adds, void addition, merge flag, strict hunks followed by merge hunks) is simulated against the extracted table: no line is rejected, every hunk is flushed exactly once (a pending hunk overwritten without a flush is a lost hunk), every line appends the right kind of value to the right field, and the path line resets all four lists; (R-PATHTAB) the path<->JSON mapping tables of Path.JsonNode and NewPath are inverse on the six readable kinds; (R-JSONCODEC) hunk payloads are encoded by json.Marshal only, with and without colour.",
+		NotDecided:  "Payload fidelity (escaping by encoding/json), `identical effect on every document` (needs C01), colour output beyond structure, strict-after-merge metadata inheritance (excluded by the property).",
+		Assumptions: commonAssumptions,
+		Run: func(w *World, r *Report) {
+			v2 := w.Pkg(pathV2)
+			ruleAutomaton(w, r, v2)
+			rulePathTab(w, r, v2)
+			ruleJSONCodec(w, r, v2, "v2")
+			r.Floor("R-AUTOMATON", 50)
+			r.Floor("R-PATHTAB", 6)
+		}})
+}
+
+func init() {
+	register(&PropSpec{ID: "C16",
+		Explain: "Decides the structural part of JSON/YAML interchangeability: (R-YAMLTYPES) NewJsonNode has an arm for every dynamic type yaml.v2 v2.4.0 and encoding/json can put into an interface{} (map[interface{}]interface{}, map[string]interface{}, []interface{}, string, bool, int, int64, uint64, float64, nil) and each scalar arm yields the matching node type (a string stays a string, whatever it looks like); (R-CODEC) ReadJson* decode with json.Unmarshal and ReadYaml* with yaml.Unmarshal through the same unmarshal()+NewJsonNode path, Json() reaches only json.Marshal and Yaml() only yaml.Marshal (named exceptions: null renders through JSON, void renders as the empty string); (R-JSONCODEC) no other entry point of either codec is used anywhere in the library.",
+		NotDecided:  "Quoting of ambiguous scalars by yaml.v2, float formatting, key types — behaviour of the two codec libraries on run-time values.",
+		Assumptions: commonAssumptions,
+		Run: func(w *World, r *Report) {
+			v2 := w.Pkg(pathV2)
+			ruleYamlTypes(w, r, v2)
+			ruleCodecRoutes(w, r, v2, "v2")
+			ruleJSONCodec(w, r, v2, "v2")
+			r.Floor("R-YAMLTYPES", 12)
+			r.Floor("R-CODEC", 20)
+		}})
+}
